@@ -148,10 +148,10 @@ fn fri(args: &[String]) {
 // native reconstruction of counterexamples of the FRI-verifier harness family (Kani's concrete playback does not finish on
 // runs of this size): the same scenario is rebuilt and the small symbolic space of the obligation is searched natively
 // (honest values with up to two cells replaced by every field element). Prints `FOUND <description>` or `NONE`.
-struct NWrap { inner: DefaultVerifierChannel<T, PH>, rem: Option<Vec<T>>, commits: Option<Vec<PD128>>, layer: usize, layer_vals: Option<Vec<T>>, cur: usize }
+struct NWrap { inner: DefaultVerifierChannel<T, PH>, rem: Option<Vec<T>>, commits: Option<Vec<PD128>>, layer: usize, layer_vals: Option<Vec<T>>, cur: usize, parts: Option<usize> }
 impl fri::VerifierChannel<T> for NWrap {
     type Hasher = PH;
-    fn read_fri_num_partitions(&self) -> usize { self.inner.read_fri_num_partitions() }
+    fn read_fri_num_partitions(&self) -> usize { match self.parts { Some(x) => x, None => self.inner.read_fri_num_partitions() } }
     fn read_fri_layer_commitments(&mut self) -> Vec<PD128> { let c = self.inner.read_fri_layer_commitments(); match self.commits.take() { Some(x) => x, None => c } }
     fn take_next_fri_layer_proof(&mut self) -> crypto::BatchMerkleProof<PH> { self.inner.take_next_fri_layer_proof() }
     fn take_next_fri_layer_queries(&mut self) -> Vec<T> {
@@ -202,11 +202,12 @@ fn fri_check(args: &[String]) {
     let rem: Vec<T> = proof.parse_remainder::<T>().unwrap();
     let (lq, _) = FriProof::read_from(&mut SliceReader::new(&bytes)).unwrap().parse_layers::<PH, T>(n, folding).unwrap();
 
+    let parts_o: std::cell::Cell<Option<usize>> = std::cell::Cell::new(None);
     let run = |pbytes: &[u8], rem_o: Option<Vec<T>>, commits_o: Option<Vec<PD128>>, ev: &[T], layer_o: Option<(usize, Vec<T>)>| -> bool {
         let p2 = match FriProof::read_from(&mut SliceReader::new(pbytes)) { Ok(p) => p, Err(_) => return false };
         let inner = match DefaultVerifierChannel::<T, PH>::new(p2, commits.clone(), n, folding) { Ok(c) => c, Err(_) => return false };
         let (layer, layer_vals) = match layer_o { Some((l, v)) => (l, Some(v)), None => (usize::MAX, None) };
-        let mut ch = NWrap { inner, rem: rem_o, commits: commits_o, layer, layer_vals, cur: 0 };
+        let mut ch = NWrap { inner, rem: rem_o, commits: commits_o, layer, layer_vals, cur: 0, parts: parts_o.get() };
         let mut coin = CtrCoin::new(&[]);
         let v = match FriVerifier::new(&mut ch, &mut coin, options.clone(), ncoef - 1) { Ok(v) => v, Err(_) => return false };
         v.verify(&mut ch, ev, &positions).is_ok()
@@ -261,6 +262,15 @@ fn fri_check(args: &[String]) {
             if ok != (len <= bound && ag) { println!("FOUND remainder {:?}: accepted = {}, within bound = {}, agrees with folded evaluations = {}", c, ok, len <= bound, ag); return; }
         }
         println!("NONE");
+    } else if let Some(k) = kind.strip_prefix("partitions") {
+        // the channel reports 2^k partitions for the honest single-partition proof: accepted only where the claimed layout coincides
+        let k: u32 = k.parse().unwrap();
+        let parts = 1usize << k;
+        parts_o.set(Some(parts));
+        let target = n / folding;
+        let coincide = positions.iter().all(|&p0| { let p = p0 % target; (p % parts) * (target / parts) + p / parts == p });
+        let ok = run(&bytes, None, None, &queried, None);
+        if ok != coincide { println!("FOUND a proof claiming 2^{} partitions: accepted = {}, layout coincides on the queried positions = {}", k, ok, coincide); } else { println!("NONE"); }
     } else if kind == "extra" {
         // honest proof with a copy of the last layer appended
         let rd = |o: usize| u32::from_le_bytes([bytes[o], bytes[o + 1], bytes[o + 2], bytes[o + 3]]) as usize;
